@@ -283,12 +283,12 @@ CLASH_PAIRS = [("données", "donnees"), ("naïve", "naive"), ("a.b", "ab"), ("us
 ROOT_NAMES = ["List", "Any", "Optional", "Field", "Literal", "BaseModel", "Dict", "Union", "Données", "datetime", "Root"]
 
 
-def gen_name_clash(rng):
+def gen_name_clash(rng, skewed=None):
     """different objects whose keys give different registry names that convert to the same class name"""
     k1, k2 = rng.choice(CLASH_PAIRS)
     if rng.random() < 0.5:
         k1, k2 = k2, k1
-    if rng.random() < 0.3:
+    if (rng.random() < 0.3) if skewed is None else skewed:
         # tree-shaped, and the registry order is not depth-first: the deeper model is merged from two similar siblings (so it
         # is registered last), an earlier subtree precedes it and the other clashing model is a later top-level sibling
         plain = "old_" + "".join(c for c in k1 if c.isalnum())
